@@ -171,6 +171,7 @@ type frontAPI interface {
 	ErrorsCleanup() // one cleanup cycle of the internal failure cache (what its janitor does periodically)
 	SeedFailure(ctx context.Context, key []byte, err error)
 	Preload(ctx context.Context, key []byte, v Tok)
+	PreloadNil(ctx context.Context, key []byte) // the cached value is nil (the zero value for a typed front-end): negative caching
 	Peek(key []byte) (v Tok, isNil bool, expireAt time.Time, found bool)
 	WalkKeys() []string
 	FailurePeek(key []byte) (error, bool)
@@ -194,6 +195,7 @@ type fh struct {
 	nfault    int
 	burstEnd  int // number of log events when the scenario's threads had all finished (before any post phase)
 	ttlChain  bool
+	nilPre    bool              // the preloaded value is nil / the zero value (tag "nilpre")
 	nested    bool              // the builder of key 0 calls Get for key 1 on the same front-end (tag "nested")
 	walkFail  bool              // before the Gets start somebody walks the backend and gives up at the first entry (tag "walkfail")
 	slowBuild bool              // every build lets UpdateTTL+1s of virtual time pass before it returns (tag "slow")
@@ -446,6 +448,7 @@ func (f *frontF) FailurePeek(key []byte) (error, bool) {
 }
 
 func (f *frontF) Preload(ctx context.Context, key []byte, v Tok) { _ = f.inner.Write(ctx, key, v) }
+func (f *frontF) PreloadNil(ctx context.Context, key []byte)     { _ = f.inner.Write(ctx, key, nil) }
 
 // walkerOf returns the interface{}-valued Walk of a backend (ShardedMapOf exposes it through WalkDumpRestorer).
 func walkerOf(b interface{}) walker {
@@ -581,6 +584,7 @@ func (f *frontFO) FailurePeek(key []byte) (error, bool) {
 }
 
 func (f *frontFO) Preload(ctx context.Context, key []byte, v Tok) { _ = f.inner.Write(ctx, key, v) }
+func (f *frontFO) PreloadNil(ctx context.Context, key []byte)     { _ = f.inner.Write(ctx, key, Tok{}) }
 
 func (f *frontFO) Peek(key []byte) (Tok, bool, time.Time, bool) {
 	var (
@@ -676,6 +680,7 @@ func (f *frontFA) FailurePeek(key []byte) (error, bool) {
 }
 
 func (f *frontFA) Preload(ctx context.Context, key []byte, v Tok) { _ = f.inner.Write(ctx, key, v) }
+func (f *frontFA) PreloadNil(ctx context.Context, key []byte)     { _ = f.inner.Write(ctx, key, nil) }
 
 func (f *frontFA) Peek(key []byte) (Tok, bool, time.Time, bool) {
 	return (&frontF{inner: f.inner}).Peek(key)
@@ -751,6 +756,10 @@ func newFH(cfg FCfg) *fh {
 		if t == "nested" {
 			h.nested = true
 		}
+
+		if t == "nilpre" {
+			h.nilPre = true
+		}
 	}
 
 	bcfg.Stats = st
@@ -780,13 +789,21 @@ func newFH(cfg FCfg) *fh {
 	for i := 0; i < nkeys; i++ {
 		pre := Tok{K: h.names[i], O: "pre"}
 
+		load := func(ctx context.Context) {
+			if h.nilPre {
+				h.front.PreloadNil(ctx, h.keys[i])
+			} else {
+				h.front.Preload(ctx, h.keys[i], pre)
+			}
+		}
+
 		switch cfg.Init[i] {
 		case 'F':
-			h.front.Preload(cache.WithTTL(bg, time.Hour, false), h.keys[i], pre)
+			load(cache.WithTTL(bg, time.Hour, false))
 		case 'S':
-			h.front.Preload(cache.WithTTL(bg, 10*time.Minute-10*time.Second, false), h.keys[i], pre)
+			load(cache.WithTTL(bg, 10*time.Minute-10*time.Second, false))
 		case 'T':
-			h.front.Preload(cache.WithTTL(bg, 5*time.Minute, false), h.keys[i], pre)
+			load(cache.WithTTL(bg, 5*time.Minute, false))
 		}
 	}
 
